@@ -117,7 +117,14 @@ def decorator_rule(repo, chk):
     from ..core import dotted
     n = 0
     first = None
-    for q in sorted(chk.functions):
+    scope = set(chk.functions)
+    # a helper that is new to the tree and sits next to the functions in scope is (part of) one of them, extracted
+    mods = {q.split(':')[0] for q in scope}
+    known = known_functions()
+    for q in repo.funcs:
+        if q not in known and q.split(':')[0] in mods:
+            scope.add(q)
+    for q in sorted(scope):
         fi = repo.funcs.get(q)
         if fi is None:
             continue
